@@ -152,7 +152,9 @@ class PolyphaseFilterbank(object):
             # Cache last section of data, which is excluded in PFB step
             if self.cache is not None:
                 x = xp.concatenate([self.cache, x])
-            self.cache = x[-self.num_taps*self.num_branches:]
+            # Keep a copy: on the first chunk this would otherwise be a view of 
+            # the caller's array, which streaming callers refill in place
+            self.cache = xp.array(x[-self.num_taps*self.num_branches:], copy=True)
         
         x = pfb_frontend(x, self.window, self.num_taps, self.num_branches)
         X_pfb = xp.fft.fft(x, 
